@@ -7,8 +7,13 @@ P(o) == IF o.fmt = "XML" THEN "C01" ELSE "C02"
 SigOf(o) == <<o.t, o.fmt, o.entry, o.mode, o.opt, o.out, o.exc>>
 Say(tag, prop, clause, o) == PrintT(ToJson(<<tag, prop, clause, o.k, SigOf(o)>>))
 Chk(Q, prop, clause, o) == IF Q THEN TRUE ELSE Say("VIOL", prop, clause, o)
+\* classification of a lost round trip (for the known finding C01-single-bracketed-or-blank-value met inside a history):
+\* o.exp_alt, if given, is the expected world with the values of every Property whose only value is bracketed / blank
+\* text replaced by what was loaded; if the rest agrees, that is the only difference
+Class(o) == IF "exp_alt" \in DOMAIN o /\ SameDoc([o EXCEPT !.exp = o.exp_alt]) THEN "only-single-bracketed-or-blank-values" ELSE "other"
 Check(i) == LET o == Obs[i] IN
-   /\ Chk(o.t = "doc" => SameDoc(o), P(o), "SaveLoadIsLossless", o)
+   /\ (IF o.t = "doc" /\ ~SameDoc(o)
+       THEN PrintT(ToJson(<<"VIOL", P(o), "SaveLoadIsLossless", o.k, Append(SigOf(o), Class(o))>>)) ELSE TRUE)
    /\ Chk(o.t = "doc" => UncertaintyTyped(o), P(o), "UncertaintyKeepsItsType", o)
    /\ Chk(o.t = "foreign" => SameDoc(o), P(o), "ForeignFileLoadsToItsDocument", o)
    /\ Chk((o.t = "doc" /\ o.fmt = "XML" /\ o.out = "ok") => XmlVocabOK(o), "C01", "Only1.1VocabularyAndVersion", o)
